@@ -72,7 +72,7 @@ func init() {
 }
 
 var c15Behaviours = []string{"nothing", "model", "collection", "notfound", "invalidquery", "invalidquery-msg", "error-res", "error-plain", "events", "events-many", "timeout-then-model",
-	"panic-reserr", "panic-err", "panic-str", "panic-int", "panic-runtime", "reply-twice", "panic-after-reply"}
+	"panic-reserr", "panic-err", "panic-str", "panic-int", "panic-runtime", "panic-nil", "reply-twice", "panic-after-reply"}
 
 type c15CB struct {
 	Seq   int64
@@ -167,6 +167,8 @@ func c15Behave(ev *c15Event, qr res.QueryRequest) {
 		panic("boom")
 	case "panic-int":
 		panic(3)
+	case "panic-nil":
+		panic(nil)
 	case "panic-runtime":
 		var m map[string]int
 		m["x"] = 1
@@ -616,7 +618,7 @@ func c15CheckResponse(c *core.Ctx, ev *c15Event, rq *c15Req, data []byte, desc m
 		if r.Result == nil || (ev.typ == "model" && r.Result.Model == nil) || (ev.typ == "collection" && r.Result.Collection == nil) {
 			bad("want the model/collection supplied by the callback")
 		}
-	case "collection", "panic-err", "panic-str", "panic-int", "panic-runtime", "error-plain":
+	case "collection", "panic-err", "panic-str", "panic-int", "panic-runtime", "panic-nil", "error-plain":
 		if code != "system.internalError" {
 			bad("want system.internalError")
 		}
